@@ -142,7 +142,9 @@ CLAIMS = {
          "sources: C01_timed_grammar (delay, observe_on, delay_subscription, subscribe_on, debounce, throttle, buffer_with_time, "
          "buffer_with_count_and_time, interval, interval_at, timer between a hot input and the subscriber, EVERY label sequence - polls in any "
          "order, input events after its terminal, late timers) and C01_timed_predicates_imply_grammar (every trace accepted by the predicates "
-         "that judge the implementation under C02 / C07-C09 has the shape); they are single nodes, not composed into the trees.", "DESIGN.md section 5 C01"),
+         "that judge the implementation under C02 / C07-C09 has the shape), C01_timed_inside_a_pipeline (any pipeline tree in front of such an "
+         "operator, any chain behind it); each run also executes ~400 (6000) pipelines with one operator in front of and one behind a "
+         "scheduler-using operator and compares them with the composition of the chain model, the timed model and the back channel.", "DESIGN.md section 5 C01"),
  "C10": ("Theorems over the stateful lock-level model of SubjectThreads / BehaviorSubject (Ileave.v), any number of threads, any scripts, ANY "
          "schedule at mutex granularity: C10_subject_never_stuck / C10_subject_no_deadlock (in every configuration some unfinished thread can "
          "move), C10_subject_no_panic, C10_subject_callbacks_exclusive, C10_subject_common_order. Theorems over a discipline-level model (threads = programs of lock / unlock / enter-callback / leave-callback actions, any schedule): "
